@@ -10,6 +10,42 @@ def combos {α : Type} : List α → Nat → List (List α)
   | [], _ + 1 => []
   | x :: xs, k + 1 => (combos xs k).map (x :: ·) ++ combos xs (k + 1)
 
+/-! ### compiled version of `combos`
+`combos l k` explores `2^|l|` branches before answering `[]` when `k > |l|` (e.g. the clauses of
+`cardinality_geq(lits, 1)` ask for the `|lits|`-subsets).  `combosFast` prunes those branches; the
+`csimp` equation makes the compiler use it, the logical definition is unchanged. -/
+
+theorem combos_eq_nil_of_length_lt {α : Type} : ∀ (l : List α) (k : Nat), l.length < k → combos l k = []
+  | [], 0, h => by simp at h
+  | [], _ + 1, _ => by simp [combos]
+  | _ :: _, 0, h => by simp at h
+  | x :: xs, k + 1, h => by
+    have h1 : xs.length < k := by simp at h; omega
+    have h2 : xs.length < k + 1 := by omega
+    simp [combos, combos_eq_nil_of_length_lt xs k h1, combos_eq_nil_of_length_lt xs (k + 1) h2]
+
+def combosFast {α : Type} : List α → Nat → List (List α)
+  | _, 0 => [[]]
+  | [], _ + 1 => []
+  | x :: xs, k + 1 =>
+      if xs.length < k then []
+      else (combosFast xs k).map (x :: ·) ++ (if xs.length < k + 1 then [] else combosFast xs (k + 1))
+
+theorem combos_eq_combosFast_aux {α : Type} : ∀ (l : List α) (k : Nat), combos l k = combosFast l k
+  | _, 0 => by cases ‹List α› <;> simp [combos, combosFast]
+  | [], _ + 1 => by simp [combos, combosFast]
+  | x :: xs, k + 1 => by
+    simp only [combos, combosFast]
+    by_cases h1 : xs.length < k
+    · have h2 : xs.length < k + 1 := by omega
+      simp [h1, combos_eq_nil_of_length_lt xs k h1, combos_eq_nil_of_length_lt xs (k + 1) h2]
+    · by_cases h2 : xs.length < k + 1
+      · simp [h1, h2, combos_eq_nil_of_length_lt xs (k + 1) h2, combos_eq_combosFast_aux xs k]
+      · simp [h1, h2, combos_eq_combosFast_aux xs k, combos_eq_combosFast_aux xs (k + 1)]
+
+@[csimp] theorem combos_eq_combosFast : @combos = @combosFast := by
+  funext α l k; exact combos_eq_combosFast_aux l k
+
 /-- `itertools.product(*ls)`; first coordinate varies slowest -/
 def product {α : Type} : List (List α) → List (List α)
   | [] => [[]]
